@@ -324,3 +324,43 @@ def column_labels(kind, p):
     if kind == "duplicated":  # the first label occurs twice
         return ["temp"] + ["temp" if j == 1 else f"v{chr(97 + j)}" for j in range(1, p)]
     raise ValueError(kind)
+
+
+# ---- realistic series for enumerated cells (deterministic functions of a stored seed) ----------------------------------
+
+
+def realistic_series(seed, n, p, kind=None):
+    """A series of the kind users feed the detectors with default settings: noise with level shifts, optionally a seasonal
+    cycle, a drift, readings rounded to one decimal, bursts of outliers, a plateau, events in the first / last samples.
+    numpy PCG64 seeded with `seed` (the cell stores the seed; hundreds of values are not drawn through Hypothesis)."""
+    import numpy as np
+
+    rng = np.random.Generator(np.random.PCG64(seed))
+    kinds = ["shifts", "seasonal", "trend", "rounded", "bursts", "plateau", "ends", "variance"]
+    kind = kind or kinds[seed % len(kinds)]
+    X = rng.standard_normal((n, p))
+    t = np.arange(n)[:, None]
+    n_shifts = int(rng.integers(1, 5))
+    for pos in sorted(int(v) for v in rng.integers(5, n - 5, size=n_shifts)):
+        cols = rng.random(p) < 0.7
+        cols[int(rng.integers(0, p))] = True
+        X[pos:, cols] += float(rng.choice([2.0, -3.0, 1.0, 5.0]))
+    if kind == "seasonal":
+        X += 1.5 * np.sin(2 * np.pi * t / int(rng.choice([7, 12, 24, 50])))
+    elif kind == "trend":
+        X += float(rng.choice([0.02, -0.01, 0.05])) * t
+    elif kind == "rounded":
+        X = np.round(X, 1)
+    elif kind == "bursts":
+        for pos in rng.integers(0, n, size=4):
+            X[int(pos):int(pos) + int(rng.integers(1, 4))] += float(rng.choice([8.0, -10.0]))
+    elif kind == "plateau":
+        a = int(rng.integers(10, n - 30))
+        X[a:a + 20] = np.round(X[a], 1)
+    elif kind == "ends":
+        X[:3] += 6.0
+        X[-2:] -= 7.0
+    elif kind == "variance":
+        a = int(rng.integers(20, n - 20))
+        X[a:] *= 3.0
+    return X, kind
